@@ -54,6 +54,7 @@ def c01(tier, seed):
 def c02(tier, seed):
     scns = C.pairings_2d() + C.strands() + C.cubes_3d() + C.numeric_arrays()[:2]
     scns = scns + C.unweighted(C.pairings_2d()[:4] + C.strands()[:2])
+    scns = scns + [dict(s, name=s["name"] + ".ins") for s in _insertion_scns(tier, seed)]
     return dict(
         jobs=_value_jobs("C02", "c02", scns, tier, seed),
         rule="as C01; bases, margins, ranges and min-base mask compared per state",
@@ -379,4 +380,55 @@ def c09(tier, seed):
     )
 
 
-PROPS = {"C07": c07, "C09": c09, "C15": c15, "C16": c16, "C17": c17, "C14": c14, "C12": c12, "C01": c01, "C02": c02, "C03": c03, "C04": c04, "C11": c11}
+def c08(tier, seed):
+    import configs
+    import envelope
+    from scenarios import cat, mr, caitems, cacat, scenario
+    n = 40 if tier == "quick" else 400
+    y = dict(yvals=(0, 1, 3), ymeasures=("mean", "sum"), valid_counts=True)
+    base = [
+        scenario("cat_x_cat", [cat("A", 4, miss=[2], vals=[1, 9, 3, 2]), cat("B", 4, miss=[4], vals=[2, None, 1, 5])],
+                 population=100),
+        scenario("cat_x_mr", [cat("A", 4, miss=[3]), mr("B", 3)], population=50),
+        scenario("mr_x_cat", [mr("A", 3), cat("B", 4, miss=[1], vals=[7, 1, 2, 3])]),
+        scenario("mr_x_mr", [mr("A", 2), mr("B", 2)]),
+        scenario("catdate_x_cat", [cat("A", 3, date=True), cat("B", 3)], population=10),
+        scenario("cat_1d", [cat("A", 4, miss=[2])]),
+        scenario("mr_1d", [mr("A", 3)]),
+        scenario("cat_x_cat_y", [cat("A", 3), cat("B", 3, miss=[2])], **y),
+        scenario("cat_1d_y", [cat("A", 3)], **y),
+        scenario("cat_x_cat.u", [cat("A", 3), cat("B", 3)], weighted=False),
+    ]
+    scns = []
+    for i, s in enumerate(base):
+        s = dict(s)
+        ri, ci = envelope.slice_dim_indexes(s["dims"])
+        rd = s["dims"][ri]
+        cd = s["dims"][ci] if ci is not None else None
+        s["configs"] = configs.sort_configs(rd, cd, n, seed * 131 + i, has_y=bool(s["yvals"]))
+        if cd is not None and rd["kind"] == "cat" and s.get("population"):
+            valid = [x for p, x in enumerate(rd["ids"], 1) if p not in rd["miss"]]
+            cvalid = [x for p, x in enumerate(cd["ids"], 1) if p not in cd["miss"]]
+            for meas in ("population", "table_percent", "col_percent"):
+                s["configs"].append(configs.config(
+                    configs.dimcfg(vins=[configs.insertion("D", "top", [valid[0]], [valid[1]], id=31),
+                                         configs.insertion("S", "bottom", valid[-1:], id=32)],
+                                   order={"type": "opposing_element", "measure": meas,
+                                          "eid": cvalid[0]}),
+                    configs.dimcfg()))
+        configs.assign_label_ranks(s)
+        scns.append(s)
+    return dict(
+        jobs=_value_jobs("C08", "c08", scns, tier, seed, single_pass=True),
+        rule="seeded sort-by-value configurations (opposing element / insertion, marginal, "
+             "label, univariate measure; every supported measure keyword; both directions; "
+             "fixed top/bottom lists with stale and repeated ids; hidden / pruned elements; "
+             "subtotals on either dimension; unresolvable keys) x TLC-enumerated bags so that "
+             "ties, NaN keys and zero bases occur; the spec emits the SET of acceptable orders",
+        assumptions=ASSUME_COMMON + ["label order: the harness supplies the rank of each label "
+                                     "under Python str ordering"],
+        feature_floor=("weights_differ",),
+    )
+
+
+PROPS = {"C08": c08, "C07": c07, "C09": c09, "C15": c15, "C16": c16, "C17": c17, "C14": c14, "C12": c12, "C01": c01, "C02": c02, "C03": c03, "C04": c04, "C11": c11}
